@@ -117,6 +117,54 @@ fn digest_case(variant: u32, msg: &[u8]) -> Case {
     }
 }
 
+/// message given in parts: oneshot = hash the concatenation with one `update` (parts only
+/// keep the Coq literals short); otherwise one `update` call per part
+fn parts_case(variant: u32, parts: &[Vec<u8>], oneshot: bool) -> Case {
+    let whole: Vec<u8> = parts.concat();
+    let d = if oneshot {
+        digest(variant, &whole)
+    } else {
+        macro_rules! go {
+            ($t:ident) => {{
+                let mut s = $t::default();
+                for p in parts {
+                    s.update(p);
+                }
+                s.finalize().to_vec()
+            }};
+        }
+        match variant {
+            224 => go!(Blake224),
+            256 => go!(Blake256),
+            384 => go!(Blake384),
+            _ => go!(Blake512),
+        }
+    };
+    let mut key = vec![if oneshot { 0u8 } else { 2u8 }];
+    key.extend_from_slice(&variant.to_le_bytes());
+    if !oneshot {
+        for p in parts {
+            key.extend_from_slice(&(p.len() as u32).to_le_bytes());
+        }
+    }
+    key.extend_from_slice(&whole);
+    let ps: Vec<String> = parts.iter().map(|p| format!("({}, {})", p.len(), nlit(p))).collect();
+    let js: Vec<String> = parts.iter().map(|p| jstr(&hex(p))).collect();
+    Case {
+        coq: format!("BU {} {} [{}] {}", variant, oneshot, ps.join("; "), nlit(&d)),
+        json: format!(
+            "{{\"kind\":\"{}\",\"variant\":{},\"len\":{},\"parts\":[{}],\"digest\":{}}}",
+            if oneshot { "digest-long" } else { "updates" },
+            variant,
+            whole.len(),
+            js.join(","),
+            jstr(&hex(&d))
+        ),
+        key,
+        nontrivial: !whole.is_empty(),
+    }
+}
+
 fn hook_case(variant: u32, h: &[u8], t0: u128, t1: u128, buffered: &[u8], tail: &[u8]) -> Case {
     let d = digest_from(variant, h, t0, t1, buffered, tail);
     let mut key = vec![1u8];
@@ -170,23 +218,13 @@ fn main() {
     let mut cases: Vec<Case> = Vec::new();
     let mut direct: Vec<String> = Vec::new();
     let variants = [224u32, 256, 384, 512];
-    let (mut n_sweep, mut n_sparse, mut n_hook, mut n_rt) = (0usize, 0usize, 0usize, 0usize);
+    let (mut n_sweep, mut n_sparse, mut n_hook, mut n_rt, mut n_updates) = (0usize, 0usize, 0usize, 0usize, 0usize);
     let mut max_len = 0usize;
 
     // 1. every length 0 ..= 3*block+1 (every residue, 55/56 and 111/112, 0, exact multiples)
     for &v in &variants {
         let block = if v <= 256 { 64 } else { 128 };
         for len in 0..=(3 * block + 1) {
-            // quick: 32-bit variants take every length, 64-bit variants every length around
-            // the boundaries and every third elsewhere; thorough: everything
-            let r = len % block;
-            let near = r <= 2 || r + 20 >= block || len <= 2;
-            if !thorough && block == 128 && !near && len % 3 != 0 {
-                continue;
-            }
-            if !thorough && v == 224 && !near && len % 2 != 0 {
-                continue;
-            }
             let msg = content(&mut rng, len as u64 + v as u64, len);
             cases.push(digest_case(v, &msg));
             n_sweep += 1;
@@ -203,8 +241,46 @@ fn main() {
             let len = (base as i64 + delta).max(0) as usize;
             let msg = content(&mut rng, i as u64, len);
             max_len = max_len.max(len);
-            cases.push(digest_case(v, &msg));
+            let parts: Vec<Vec<u8>> = msg.chunks(1024).map(|c| c.to_vec()).collect();
+            cases.push(parts_case(v, &parts, true));
             n_sparse += 1;
+        }
+    }
+    // 2b. several update calls: every split point of messages around the block boundaries
+    //     (quick: a directed subset), then random 2-4 part splits incl. empty parts
+    for &v in &variants {
+        let block = if v <= 256 { 64usize } else { 128 };
+        let mut splits: Vec<(usize, usize)> = Vec::new(); // (total length, split point)
+        for &total in &[block - 9, block - 8, block - 1, block, block + 1, 2 * block - 9, 2 * block, 2 * block + 3] {
+            for sp in 0..=total {
+                let near = sp <= 1 || sp + 1 >= total || (sp % block) <= 1 || (sp % block) + 1 >= block
+                    || (total - sp) % block == 0 || sp + 9 == block || sp + 8 == block || sp + 17 == block || sp + 16 == block;
+                if thorough || near || rng.chance(1, 12) {
+                    splits.push((total, sp));
+                }
+            }
+        }
+        for (total, sp) in splits {
+            let msg = content(&mut rng, (total + sp) as u64, total);
+            cases.push(parts_case(v, &[msg[..sp].to_vec(), msg[sp..].to_vec()], false));
+            n_updates += 1;
+        }
+        for i in 0..(if thorough { 200 } else { 12 }) {
+            let nparts = rng.range(2, 4) as usize;
+            let mut parts: Vec<Vec<u8>> = Vec::new();
+            for _ in 0..nparts {
+                let l = match rng.below(6) {
+                    0 => 0,
+                    1 => block,
+                    2 => rng.below(block as u64) as usize,
+                    3 => block - 1 - rng.below(18) as usize,
+                    4 => 2 * block + rng.below(3) as usize - 1,
+                    _ => rng.below(3 * block as u64) as usize,
+                };
+                parts.push(content(&mut rng, i as u64 + l as u64, l));
+            }
+            cases.push(parts_case(v, &parts, false));
+            n_updates += 1;
         }
     }
     // 3. hook H2: arbitrary chaining value, counter next to a word boundary, tail crossing it
@@ -315,11 +391,12 @@ fn main() {
         samples.push(c.json.clone());
     }
     println!(
-        "{{\"evaluations\":{},\"distinct_nontrivial\":{},\"length_sweep\":{},\"sparse_long\":{},\"max_len\":{},\"hook_state_cases\":{},\"hook_roundtrips\":{},\"variants\":[224,256,384,512],\"direct_failures\":[{}],\"samples\":[{}]}}",
+        "{{\"evaluations\":{},\"distinct_nontrivial\":{},\"length_sweep\":{},\"sparse_long\":{},\"multi_update\":{},\"max_len\":{},\"hook_state_cases\":{},\"hook_roundtrips\":{},\"variants\":[224,256,384,512],\"direct_failures\":[{}],\"samples\":[{}]}}",
         cases.len(),
         distinct.len(),
         n_sweep,
         n_sparse,
+        n_updates,
         max_len,
         n_hook,
         n_rt,
